@@ -120,6 +120,10 @@ func main() {
 	vs := filepath.Join(*out, "verifsim.go")
 	os.WriteFile(vs, tb, 0o644)
 	overlay[filepath.Join(*repo, "src/verifsim/verifsim.go")] = vs
+	// exports of unexported key predicates for the alias-store exploration (triesim)
+	pe := filepath.Join(*out, "parser_verif_export.go")
+	os.WriteFile(pe, []byte("package parser\n\n// added by the verification overlay only\nvar (\n\tVerifTokenEqual = tokenEqual\n\tVerifTokenLess  = tokenLess\n)\n"), 0o644)
+	overlay[filepath.Join(*repo, "src/parser/verif_export.go")] = pe
 	ob, _ := json.MarshalIndent(map[string]any{"Replace": overlay}, "", " ")
 	os.WriteFile(filepath.Join(*out, "overlay.json"), ob, 0o644)
 	sort.Slice(sites, func(i, j int) bool { return sites[i].Site < sites[j].Site })
